@@ -268,6 +268,11 @@ func negotiateServer(ctx context.Context, identity, password string, permissions
 		if err != nil {
 			return 0, nil, err
 		}
+		// The success element must reach the peer before we report the session
+		// as authenticated: the deferred Close would drop a failed flush.
+		if err = w.Flush(); err != nil {
+			return 0, nil, err
+		}
 		return Authn, session.Conn(), nil
 	}
 
@@ -278,6 +283,9 @@ func negotiateServer(ctx context.Context, identity, password string, permissions
 		},
 	))
 	if err != nil {
+		return 0, nil, err
+	}
+	if err = w.Flush(); err != nil {
 		return 0, nil, err
 	}
 	return Authn, session.Conn(), nil
